@@ -6,6 +6,7 @@
 #include "vf.h"
 #include "keys.h"
 #include "tok.h"
+#include "rotate.h"
 #include <openssl/bn.h>
 #include <openssl/ec.h>
 #include <openssl/ecdsa.h>
@@ -745,6 +746,9 @@ static void enumerate_c01(void)
 			rt_free(&t);
 		}
 	}
+	/* key rotation with certain address reuse: a checker holding the current key never accepts the retired key's tokens */
+	if (provider == 0)
+		rot_enumerate("accepted-without-valid-signature");
 }
 
 /* ------------------------------------------------------------------ C12 */
@@ -878,6 +882,8 @@ static void enumerate_c12(void)
 	}
 	switching_bfs();
 	env_values(self_path);
+	/* (f) key rotation with certain address reuse, every (sign, verify, load) provider triple */
+	rot_enumerate("providers");
 	vf_count("cross_verifications", c12_pairs);
 	vf_count("deterministic_tokens_compared", c12_identical);
 }
